@@ -26,9 +26,9 @@ ASSUMPTIONS = [
 ]
 EXHAUSTIVE = {"flag": True, "scope": "write path x cached-before x object kind x dtype matrix (values sampled); histories are sampled"}
 ANCHOR_FUNCS = ["vector:Vector.fingerprint", "vector:Vector._invalidate_fp", "vector:Vector._compute_fingerprint_full", "table:Table.fingerprint", "vector:Vector.__setitem__"]
-REQUIRED_STRATA = {"recompute": 200, "write-path": 400, "sensitivity": 200, "read-only": 100, "steps": 2000}
+REQUIRED_STRATA = {"derived": 200, "recompute": 200, "write-path": 400, "sensitivity": 200, "read-only": 100, "steps": 2000}
 
-PATHS = ["promote-equal", "elem", "elem-neg", "slice-seq", "slice-scalar", "mask-list", "mask-vector", "idx-list", "idx-vector", "promote", "none", "rename"]
+PATHS = ["reject-after-promote-slice", "reject-after-promote-idx", "reject-after-promote-mask", "promote-equal", "elem", "elem-neg", "slice-seq", "slice-scalar", "mask-list", "mask-vector", "idx-list", "idx-vector", "promote", "none", "rename"]
 TPATHS = ["view-promote-equal", "view-elem", "view-slice", "cell", "cell-by-name", "row", "column", "region-list", "region-table", "attr-list", "attr-vector", "view-promote", "rename_column"]
 DOM = {
 	"int": [0, 1, 2, 3, 5, 7, -1, -2, 2**61 - 1, 2**61],
@@ -38,6 +38,7 @@ DOM = {
 	"date": [V.D0, V.date(2021, 2, 28), V.date(1999, 12, 31)],
 	"nanfloat": [float("nan"), 0.0, -0.0, 1.5, float("inf"), -2.5],
 	"object": [1, "a", 2.5, (1, 2), b"x", V.Plain(3)],
+	"regroup": [(1, (2, 3)), ((1, 2), 3), (1, 2, 3), ((1,), 2, 3), (1, 2, (3,)), ((1, 2, 3),)],      # the same leaves in the same order, grouped differently
 	"nested": [[1, 2], [1], (3, [4]), {"k": 1}, [1, 2], (3.0, float("nan")), [float("nan")], (1, (2.5, float("nan")))],
 }
 
@@ -106,6 +107,26 @@ def run_vector_path(chk, spec):
 		o = call(lambda: v.__setitem__([i], [new])); single = (i, new)
 	elif path == "idx-vector":
 		o = call(lambda: v.__setitem__(Vector([i]), new)); single = (i, new)
+	elif path.startswith("reject-after-promote"):
+		# a batch whose first value needs a promotion and whose second value is rejected: the write fails as a whole
+		if n < 2 or all(x is None for x in vals):
+			chk.skip("reject-after-promote-needs-two")
+			return
+		wide = pool.wider(next(x for x in vals if x is not None))
+		bad = V.Plain(9) if kind != "object" else None
+		if bad is None or wide is None or kind in ("nested", "regroup", "object", "nanfloat"):
+			chk.skip("reject-after-promote-not-applicable")
+			return
+		news = [wide, bad]
+		if path.endswith("slice"):
+			o = call(lambda: v.__setitem__(slice(0, 2), news))
+		elif path.endswith("idx"):
+			o = call(lambda: v.__setitem__([n - 1, 0], news))
+		else:
+			o = call(lambda: v.__setitem__([k < 2 for k in range(n)], news))
+		if o.ok:
+			chk.skip("reject-after-promote-was-accepted")
+			return
 	elif path == "promote-equal":
 		# a wider-kind value that denotes the stored element itself (midnight of the stored day, 3.0 for 3 ...): the column promotes, nothing else changes
 		old = vals[i]
@@ -128,8 +149,11 @@ def run_vector_path(chk, spec):
 	if not o.ok:
 		chk.skip("write-refused")
 		# a refused write must leave the fingerprint as it was
-		if cached and fp(v).value != f0:
+		if cached and fp(v).value != f0 and M.same_list(list(v._underlying), vals):
 			chk.fail("a failed write does not change the fingerprint", f"fingerprint/changed-by-failed-write/{path}", f"{spec!r}")
+			return
+		# whatever the failed write left behind, the fingerprint is that of the current contents
+		judge_fresh(chk, v, f"vector/{'cached-before' if cached else 'not-cached-before'}/after-failed-{path}", spec)
 		return
 	if not judge_fresh(chk, v, f"vector/{'cached-before' if cached else 'not-cached-before'}/{path}", spec):
 		return
@@ -272,6 +296,51 @@ def run_readonly(chk, spec):
 				return
 
 
+def run_derived(chk, spec):
+	"""objects DERIVED from one whose fingerprint is cached (slices of every direction, masks, copies, sorts, transposes, row slices, column
+	selections): their fingerprint is that of their own contents, and element order matters"""
+	import random
+	rng = random.Random(spec["seed"])
+	kind, n = spec["kind"], spec["n"]
+	vals = [rng.choice(DOM[kind]) for _ in range(n)]
+	if len(set(map(repr, vals))) == 1 and n > 1:
+		vals[0] = next((x for x in DOM[kind] if repr(x) != repr(vals[0])), vals[0])
+	v = Vector(list(vals), name="v")
+	t = Table([Vector(list(vals), name="a"), Vector(list(reversed(vals)), name="b")])
+	if spec["cached"]:
+		fp(v), fp(t)
+	derivs = {
+		"v[::-1]": lambda: v[::-1], "v[-1::-1]": lambda: v[-1::-1], "v[:]": lambda: v[:], "v[0:n]": lambda: v[0:n], "v[1:]": lambda: v[1:], "v[::2]": lambda: v[::2],
+		"v[mask-all]": lambda: v[[True] * n], "v[mask-vector]": lambda: v[Vector([True] * n)], "v.copy()": lambda: v.copy(), "v.T": lambda: v.T,
+		"v<<[]": lambda: v << [], "t[::-1]": lambda: t[::-1], "t[:]": lambda: t[:], "t[0:n]": lambda: t[0:n], "t[mask-all]": lambda: t[[True] * n], "t.copy()": lambda: t.copy(),
+		"t['b','a']": lambda: t["b", "a"], "t['a','b']": lambda: t["a", "b"], "t.T.T": lambda: t.T.T, "t.a": lambda: t.a, "t.cols()[1]": lambda: t.cols()[1], "t[::-1].a": lambda: t[::-1].a,
+	}
+	if kind in ("int", "float", "str", "bool", "date"):
+		derivs["v.sort_by()"] = lambda: v.sort_by()
+		derivs["v.sort_by(reverse)"] = lambda: v.sort_by(reverse=True)
+		derivs["t.sort_by(b)"] = lambda: t.sort_by("b")
+	name = spec["deriv"]
+	if name not in derivs:
+		chk.skip("derived-not-applicable")
+		return
+	o = call(derivs[name])
+	chk.judged("derived", ("derived", name, spec["cached"], kind))
+	if not o.ok or not isinstance(o.value, Vector):
+		chk.skip("derived-raised")
+		return
+	d = o.value
+	if not judge_fresh(chk, d, f"derived/{'cached-before' if spec['cached'] else 'not-cached-before'}/{name}", spec):
+		return
+	# a reversed selection of hash-distinct elements must not report the source's fingerprint
+	if name in ("v[::-1]", "v[-1::-1]") and n > 1 and any(hdistinct(a, b) for a, b in zip(vals, reversed(vals))):
+		if fp(d).value == fp(v).value and list(map(repr, vals)) != list(map(repr, reversed(vals))):
+			chk.fail("element order matters", f"fingerprint/order-insensitive/{name}", f"{spec!r}: {vals!r} and its reverse have the same fingerprint")
+
+
+DERIVS = ["v[::-1]", "v[-1::-1]", "v[:]", "v[0:n]", "v[1:]", "v[::2]", "v[mask-all]", "v[mask-vector]", "v.copy()", "v.T", "v<<[]", "t[::-1]", "t[:]", "t[0:n]", "t[mask-all]", "t.copy()",
+	"t['b','a']", "t['a','b']", "t.T.T", "t.a", "t.cols()[1]", "t[::-1].a", "v.sort_by()", "v.sort_by(reverse)", "t.sort_by(b)"]
+
+
 def dom0(kind):
 	return DOM[kind][0]
 
@@ -283,6 +352,7 @@ def run_history(chk, spec):
 
 RUNNERS = {"vector_path": run_vector_path, "table_path": run_table_path, "swap": run_swap, "readonly": run_readonly, "history": run_history}
 RUNNERS["recompute"] = recompute.runner("C16")
+RUNNERS["derived"] = run_derived
 
 
 def setup(chk):
@@ -312,6 +382,10 @@ def run(chk):
 						continue
 					for _ in range(reps):
 						chk.case("table_path", {"path": path, "cached": cached, "view_first": view_first, "kinds": kinds, "n": rng.choice([1, 2, 3, 4]), "seed": rng.randrange(10**9)}, "table-path")
+	for kind in DOM:
+		for deriv in DERIVS:
+			for cached in (True, False):
+				chk.case("derived", {"kind": kind, "deriv": deriv, "cached": cached, "n": rng.choice([2, 3, 4]), "seed": rng.randrange(10**9)}, "derived")
 	for kind in DOM:
 		for _ in range(20 if chk.quick() else 100):
 			n = rng.choice([2, 3, 5, 8])
